@@ -78,7 +78,7 @@ def finish(ctx, explanation, trusted_base, level="other"):
     violations, knowns = [], []
     for r in findings:
         (knowns if fid(r) in known_open else violations).append(r)
-    evdir = os.path.join(VERIF, "evidence")
+    evdir = os.environ.get("VERIF_EVIDENCE_DIR") or os.path.join(VERIF, "evidence")
     os.makedirs(evdir, exist_ok=True)
     rdir = os.path.join(evdir, "replay")
     # report ----------------------------------------------------------------
